@@ -162,6 +162,12 @@ let handle_g (t : 'a inst) cmd g =
     let n = int_of_string ns in
     let (((r, l), p), _) = pstrf_full t.o t.abs psbs (nat_of_int n) t.epsm (gfmat t (gmat_of t n n al)) in
     Some (Printf.sprintf "P OK %d ; %s ; %s" (int_of_nat r) (gmstr t n n l) (pstr n p))
+  | "E", [[_ao; ns]; al] ->
+    (* symm_eigenvalue_decomposition: kernels::syev as coded (tred2, implicit QL, sort, normalisation) *)
+    let n = int_of_string ns in
+    (match syev t.o t.abs (nat_of_int n) (gfmat t (gmat_of t n n al)) with
+     | SyevOk (q, d) -> Some (Printf.sprintf "E OK %s ; %s" (gmstr t n n q) (gvstr t n d))
+     | SyevExc -> Some "E EXC")
   | "J", [[_ao; ns; ms; eps; maxit]; al; bl] ->
     (* conjugate_gradient(eps,maxit): vector solve of column 0 (left = right), matrix solve left (columns), right on trans(B) (rows) *)
     let n = int_of_string ns and m = int_of_string ms and mi = int_of_string maxit in
